@@ -177,6 +177,13 @@ def run_corrupt(case, R):
             # a raised length prefix needs more bytes to complete the (mis)framed block: append genuine further frames
             tail, _ = frames_with_bounds(A2C, b"EVENT/1.0 200 OK\r\nContent-Length: 4\r\n\r\nmore" * 30, [1024], ctr=len(bounds))
             data = bytes(bad) + tail * 60
+            if case.get("notail"):
+                # nothing follows the corrupted frame: whenever the (mis)framed block is complete within the bytes received - every flip
+                # outside the length prefix, and flips that lower the length - the session must end there and then, not wait for more
+                newlen = int.from_bytes(bad[fs:fs + 2], "little")
+                if newlen > fe - fs - 18:
+                    continue
+                data = bytes(bad)
             log = []
             conn = _Conn(log)
             lost = []
@@ -231,7 +238,18 @@ def corrupt_cases(draw):
         msgs = [big] + msgs[1:2]
         sizes = [1024]
     return {"msgs": msgs, "sizes": sizes, "frame": draw(st.integers(0, 50)), "region": draw(st.sampled_from(["len", "tag", "ct", "ct"])),
-            "cuts": draw(st.lists(st.integers(1, 5000), max_size=4)), "idle": draw(st.booleans())}
+            "cuts": draw(st.lists(st.integers(1, 5000), max_size=4)), "idle": draw(st.booleans()), "notail": draw(st.booleans())}
+
+
+def enum_corrupt_len(tier):
+    """Every bit of the length prefix of a frame of every power-of-two size (one flip turns those into 0) and of neighbouring sizes."""
+    body = bytes((i * 13 + 5) & 0xFF for i in range(2100))
+    for size in (1, 2, 3, 4, 8, 16, 17, 32, 64, 128, 255, 256, 512, 1000, 1023, 1024):
+        msg = {"kind": "HTTP", "code": 200, "reason": "OK", "mode": "cl", "body": body[:size + 700], "headers": []}
+        for frame in (0, 1):
+            for notail in (True, False):
+                for idle in (False, True):
+                    yield {"msgs": [msg], "sizes": [size], "frame": frame, "region": "len", "cuts": [], "idle": idle, "notail": notail}
 
 
 # ---------------------------------------------------------------- outbound
@@ -377,6 +395,8 @@ SPEC = Property(
         Layer("inbound-all-double-cuts", run_inbound, strategy=lambda: inbound_cases("all2"), n={"quick": 32, "thorough": 600}, min_nontrivial=10),
         Layer("inbound-random-cuts", run_inbound, strategy=lambda: inbound_cases("random"), n={"quick": 2500, "thorough": 60000}, min_nontrivial=300),
         Layer("inbound-corrupt-frame", run_corrupt, strategy=corrupt_cases, n={"quick": 160, "thorough": 3000}, min_nontrivial=50),
+        Layer("inbound-corrupt-length-grid", run_corrupt, enumerate=enum_corrupt_len, exhaustive=True,
+              space="16 frame sizes (every power of two up to 1024 and neighbours) x first/second frame x all 16 bits of the length prefix x nothing / more frames behind it x idle / request pending", min_nontrivial=100),
         Layer("outbound-length-grid", run_outbound_direct, enumerate=enum_outbound, exhaustive=True, space="22 boundary lengths; 20 three-request sessions", min_nontrivial=20),
         Layer("outbound-gen", run_outbound_direct, strategy=outbound_cases, n={"quick": 600, "thorough": 15000}),
         Layer("outbound-api", run_outbound_world, strategy=outbound_world_cases, n={"quick": 300, "thorough": 6000}),
